@@ -36,6 +36,8 @@ LexemeOf(txt, t) == IF t.k \in {"STRING", "REGEX"} THEN SubSeq(txt, t.b + 1, t.e
 \* position of the character at index p: offset (0-based), line and column (1-based; a line ends with LF)
 NLBefore(txt, p) == { j \in 1..(p - 1) : txt[j] = 10 }
 LineOf(txt, p) == 1 + Cardinality(NLBefore(txt, p))
-MaxOf(S) == CHOOSE x \in S : \A y \in S : y <= x
-ColOf(txt, p) == IF NLBefore(txt, p) = {} THEN p ELSE p - MaxOf(NLBefore(txt, p))
+\* the last line feed before position p (0 if none), found by walking back: lines are short, texts can be long
+RECURSIVE LastNL(_, _)
+LastNL(txt, q) == IF q = 0 THEN 0 ELSE IF txt[q] = 10 THEN q ELSE LastNL(txt, q - 1)
+ColOf(txt, p) == p - LastNL(txt, p - 1)
 =============================================================================
